@@ -173,8 +173,7 @@ def deliver(prog_before, prog_after, touched, e, delivery):
         if delivery == "inproc-module":
             world.load_module(name, progen.render_module(prog_after, mi))
         else:
-            order = {"g": 0, "b": 0, "n": 1, "a": 2, "w": 2}
-            for u in sorted(mods[mi], key=lambda u: (order[u[0]], u[1])):
+            for u in progen.cell_order(prog_after, mods[mi]):
                 world.load_module(name, progen.render_unit(prog_after, u))
 
 
